@@ -106,6 +106,34 @@ class KTr(P.ExprTr):
         return super().call(n)
 
 
+QHEADER = '''(* GENERATED by tools/vf/py2coq.py (rational-arithmetic mode) from copulas/bivariate/*.py -- regenerated on every run *)
+From Coq Require Import QArith List Bool.
+From Cop Require Import Model.BivCtl.
+Import ListNotations.
+Open Scope Q_scope.
+'''
+
+
+def generate_q(ctx):
+    """Gen_bivq.v: executable (Q) versions of the theta domains and closed-form compute_theta."""
+    status = {}
+    out = QHEADER
+    for cls, fn in FAMILIES:
+        path = os.path.join(BIV, fn)
+        for nm, fnc in (('dom', P.translate_theta_domain_q), ('compute_theta_q', P.translate_compute_theta_q)):
+            name = f'{cls.lower()}_{nm}'
+            if cls == 'Frank' and nm == 'compute_theta_q':
+                continue
+            try:
+                out += fnc(path, cls)
+                status[name] = None
+            except Exception as e:
+                status[name] = f'{type(e).__name__}: {e}'
+                out += f'(* {name}: UNSUPPORTED {e} *)\n'
+    ctx.write('Gen_bivq.v', out)
+    return status
+
+
 def generate(ctx):
     """Write Gen_biv.v; return dict name -> None (ok) | error string."""
     status = {}
@@ -147,10 +175,11 @@ def generate(ctx):
                     out += f'(* {name}: UNSUPPORTED {e} *)\n'
             for nm, fnc in (('theta_domain', P.translate_theta_domain), ('compute_theta', P.translate_compute_theta)):
                 name = f'{cls.lower()}_{nm}'
-                if cls == 'Frank' and nm == 'compute_theta':
-                    continue
                 try:
-                    out += fnc(path, cls)
+                    if cls == 'Frank' and nm == 'compute_theta':
+                        out += translate_frank_tau_to_theta(path) + translate_frank_compute_theta(path)
+                    else:
+                        out += fnc(path, cls)
                     status[name] = None
                 except Exception as e:
                     status[name] = f'{type(e).__name__}: {e}'
@@ -159,3 +188,59 @@ def generate(ctx):
         P.ExprTr = orig
     ctx.write('Gen_biv.v', out)
     return status
+
+
+def translate_frank_tau_to_theta(path):
+    """Frank._tau_to_theta: residual handed to least_squares; quad is an oracle (denoted by RInt in the bridge)."""
+    mod, c, f = P.find_method(path, 'Frank', '_tau_to_theta')
+    if [a.arg for a in f.args.args] != ['self', 'alpha']:
+        raise P.Unsupported('_tau_to_theta signature')
+    body = [s for s in f.body if not (isinstance(s, ast.Expr) and isinstance(s.value, ast.Constant))]
+    # optional scalar extraction of the least_squares iterate: alpha = np.ravel(alpha)[0]
+    if body and ast.unparse(body[0]) in ('alpha = np.ravel(alpha)[0]', 'alpha = alpha[0]', 'alpha = np.asarray(alpha).ravel()[0]'):
+        body = body[1:]
+    if len(body) != 3 or not isinstance(body[0], ast.FunctionDef) or not isinstance(body[2], ast.Return):
+        raise P.Unsupported('_tau_to_theta: unexpected statement sequence')
+    d = body[0]
+    if len(d.args.args) != 1 or len(d.body) != 1 or not isinstance(d.body[0], ast.Return):
+        raise P.Unsupported('integrand shape')
+    t = d.args.args[0].arg
+    sc = P.Scope('Frank', {t: 't'}, None, {}, {'EPSILON': 'EPSILON'}, {'tau': 'tau'})
+    integrand = P.ExprTr(sc).e(d.body[0].value)
+    a = body[1]
+    sc2 = P.Scope('Frank', {'alpha': 'alpha'}, None, {}, {'EPSILON': 'EPSILON'}, {'tau': 'tau'})
+
+    class X(P.ExprTr):
+        def e(self, n):
+            if isinstance(n, ast.Subscript) and isinstance(n.slice, ast.Constant) and n.slice.value == 0 \
+                    and isinstance(n.value, ast.Call) and ast.unparse(n.value.func) == 'integrate.quad' \
+                    and len(n.value.args) == 3 and not n.value.keywords and ast.unparse(n.value.args[0]) == d.name:
+                return f'(quad frank_debye_integrand {self.e(n.value.args[1])} {self.e(n.value.args[2])})'
+            return super().e(n)
+    x = X(sc2)
+    if not (isinstance(a, ast.Assign) and len(a.targets) == 1 and isinstance(a.targets[0], ast.Name)):
+        raise P.Unsupported('debye_value assignment')
+    dv = x.e(a.value)
+    sc2.env[a.targets[0].id] = 'debye_value'
+    res = x.e(body[2].value)
+    return (f'Definition frank_debye_integrand (t : R) : R := {integrand}.\n'
+            'Definition frank__tau_to_theta (quad : (R -> R) -> R -> R -> R) (tau alpha : R) : R :=\n'
+            f'  let debye_value := {dv} in\n  {res}.\n')
+
+
+def translate_frank_compute_theta(path):
+    """Frank.compute_theta: least_squares(self._tau_to_theta, 1, bounds=(MIN_FLOAT_LOG, MAX_FLOAT_LOG)).x[0]"""
+    mod, c, f = P.find_method(path, 'Frank', 'compute_theta')
+    body = [s for s in f.body if not (isinstance(s, ast.Expr) and isinstance(s.value, ast.Constant))]
+    src = [ast.unparse(s) for s in body]
+    if src != ['result = least_squares(self._tau_to_theta, 1, bounds=(MIN_FLOAT_LOG, MAX_FLOAT_LOG))', 'return result.x[0]']:
+        raise P.Unsupported('Frank.compute_theta: unexpected body: ' + ' ;; '.join(src))
+    consts = {}
+    for n in mod.body:
+        if isinstance(n, ast.Assign) and isinstance(n.targets[0], ast.Name) and n.targets[0].id in ('MIN_FLOAT_LOG', 'MAX_FLOAT_LOG'):
+            consts[n.targets[0].id] = ast.unparse(n.value)
+    if consts != {'MIN_FLOAT_LOG': 'np.log(sys.float_info.min)', 'MAX_FLOAT_LOG': 'np.log(sys.float_info.max)'}:
+        raise P.Unsupported('least_squares bounds constants: ' + repr(consts))
+    return ('(* least_squares is an oracle: start 1, bounds (ln DBL_MIN, ln DBL_MAX); returns its first coordinate *)\n'
+            'Definition frank_compute_theta (least_squares : (R -> R) -> R -> R) (quad : (R -> R) -> R -> R -> R) (tau : R) : theta_result :=\n'
+            '  ThetaVal (least_squares (frank__tau_to_theta quad tau) 1).\n')
